@@ -12,7 +12,7 @@
    beyond), which is why the literal theorems carry that hypothesis although the model itself is exact.
    `rules` — the PluralRules object constructed for the bundle's first locale — is third-party code
    (intl_pluralrules): a section variable.                                                              *)
-From FluentV Require Import Base.Bytes Base.Outcome Syntax.Ast Bundle.Args Bundle.ArgsProofs Bundle.Number
+From FluentV Require Import Base.Bytes Base.Outcome Syntax.Ast Bundle.Args Bundle.ArgsProofs Bundle.Number Bundle.NumberConsts
   Bundle.NumberProofs Bundle.Plural Bundle.ResolverAst Bundle.ResolverModel Bundle.NumberSpec Bundle.NumberSpecProofs
   Gen.Extracted.
 Local Open Scope N_scope.
@@ -338,3 +338,17 @@ Example C12_example_number_opts :
   | _, _ => None
   end = Some (bs "2.500", Ordinal, StyleDecimal, Some 3).
 Proof. vm_compute. reflexivity. Qed.
+
+
+(* the NUMBER() option keys honoured by the model are exactly those written in types/number.rs now
+   (Gen/Extracted.v is regenerated from /repo on every run): no other key has an effect, and every listed key has one *)
+Theorem C12_option_keys_from_source :
+  (forall o key v, ~ In key NUMBER_STRING_OPTION_KEYS -> merge_one o key (VString v) = o) /\
+  (forall o key n, ~ In key NUMBER_NUMBER_OPTION_KEYS -> merge_one o key (VNumber n) = o) /\
+  forallb (fun k => existsb (fun v => changes_default k (VString (bytes_of_string v)))
+                            ["ordinal"; "percent"; "USD"; "code"; "false"]%string) NUMBER_STRING_OPTION_KEYS = true /\
+  forallb (fun k => changes_default k (VNumber (FNum (FDec false [51]%N []) default_options))) NUMBER_NUMBER_OPTION_KEYS = true.
+Proof.
+  split; [exact merge_string_keys_from_source|]. split; [exact merge_number_keys_from_source|].
+  split; [exact source_string_keys_honoured | exact source_number_keys_honoured].
+Qed.
